@@ -18,6 +18,7 @@ import re
 from ..facts import extract, units_matching, Program, AnalysisBroken, sx_find, sx_str
 from ..match import call_args, call_obj, var_of, field_of, known_edges, only_via, ev_write
 from ..columns import range_for
+from .c13 import frames
 
 UNITS = r"/Simbody/src/(SimbodyMatterSubsystem|SimbodyMatterSubsystemRep|RigidBodyNode|RigidBodyNode_Weld|RigidBodyNode_LoneParticle)\.cpp$"
 M = "SimTK::SimbodyMatterSubsystem"
@@ -337,6 +338,9 @@ def run(chk, tier, overlays=()):
     sweeps(chk, P)
     chk.rule("DELEGATE", "the central inertia is calcCentralInertia() of the system mass properties about the Ground origin")
     delegate(chk, P)
+    # the per-node quantities the sums are built from (Mk_G, mass-centre station, velocities): frame adjacency and naming where the node code carries monograms
+    frames(chk, P, re.compile(r"/Simbody/src/RigidBodyNode(_Weld|_LoneParticle)?\.cpp$"),
+           {("RBNodeWeld::realizePosition", "(X_PF * X_MB)"): "a Weld holds its F and M frames coincident (X_FM is the identity), so X_PB = X_PF * X_MB is X_PF * X_FM * X_MB"}, floor=10)
     chk.floor("SUM", 60)
     chk.floor("SWEEP", 12)
     chk.floor("DELEGATE", 1)
@@ -348,6 +352,8 @@ _S = "Simbody/src/SimbodyMatterSubsystem.cpp"
 _R = "Simbody/src/SimbodyMatterSubsystemRep.cpp"
 _N = "Simbody/src/RigidBodyNode.cpp"
 MUTATIONS = [
+    dict(name="seeded (sub-agent): welded body's Ground-frame inertia built with the parent's rotation", arm=True, file="Simbody/src/RigidBodyNode_Weld.cpp",
+         old="        const Rotation& R_GB = getX_GB(pc).R();", new="        const Rotation& R_GB = getX_GP(pc).R();", expect="FRAME:RBNodeWeld::realizePosition:aliasdecl:R_GB"),
     dict(name="seeded (sub-agent, core of it): immobile nodes report zero kinetic energy", arm=True, file="Simbody/src/RigidBodyNode_Weld.cpp",
          old="    const char* type() const override { return \"weld\"; }", new="    const char* type() const override { return \"weld\"; }\n    Real calcKineticEnergy(const SBTreePositionCache&, const SBTreeVelocityCache&) const { return 0; }",
          expect="SWEEP:node-kinetic-energy:one-routine-for-every-node-kind"),
